@@ -85,7 +85,7 @@ func VerifH02bOnlyPermittedFiles() {
 	root := zzSite()
 	fs := FileServer{Root: http.Dir(root), Hide: []string{"/h", "/c.gz"}, IndexPages: []string{"i"}}
 	p := zzReqPath(4, "/.adhoc")
-	accept := []string{"", "gzip", "zstd, gzip", "br"}[verifrt.Choose("accept", 4)]
+	accept := []string{"", "gzip", "zstd, gzip", "br", "gzip;q=0, identity", "zstd; q=0.0, gzip"}[verifrt.Choose("accept", 6)]
 	method := []string{"GET", "HEAD"}[verifrt.Choose("method", 2)]
 	r := &http.Request{Method: method, URL: &url.URL{Path: p}, Header: http.Header{}, Host: "h"}
 	if accept != "" {
@@ -103,10 +103,10 @@ func VerifH02bOnlyPermittedFiles() {
 		switch clean {
 		case "/a":
 			allowed = []string{"A"}
-			if strings.Contains(accept, "gzip") {
+			if zzOffers(accept, "gzip") {
 				allowed = append(allowed, "G")
 			}
-			if strings.Contains(accept, "zstd") {
+			if zzOffers(accept, "zstd") {
 				allowed = append(allowed, "S")
 			}
 		case "/d":
@@ -124,7 +124,7 @@ func VerifH02bOnlyPermittedFiles() {
 		}
 		verifrt.Assert(ok, "body-is-the-named-file-index-or-accepted-sibling")
 		if enc := w.Header().Get("Content-Encoding"); enc != "" {
-			verifrt.Assert(strings.Contains(accept, enc), "sibling-coding-was-accepted")
+			verifrt.Assert(zzOffers(accept, enc), "sibling-coding-was-accepted")
 		}
 	}
 	if loc := w.Header().Get("Location"); loc != "" {
@@ -167,4 +167,23 @@ func VerifH02bHiddenIndexPage() {
 	status, _ := fs.ServeHTTP(w, r)
 	verifrt.Assert(!strings.Contains(string(w.body), "I"), "hidden-index-page-never-returned")
 	verifrt.Observe("hidden-index", status, w.status)
+}
+
+// zzOffers: the Accept-Encoding list names the coding with a non-zero quality (RFC 7231 §5.3.4).
+func zzOffers(accept, coding string) bool {
+	for _, item := range strings.Split(accept, ",") {
+		parts := strings.Split(strings.TrimSpace(item), ";")
+		if strings.TrimSpace(parts[0]) != coding {
+			continue
+		}
+		zero := false
+		for _, prm := range parts[1:] {
+			prm = strings.ReplaceAll(prm, " ", "")
+			zero = zero || prm == "q=0" || prm == "q=0.0" || prm == "q=0.00" || prm == "q=0.000"
+		}
+		if !zero {
+			return true
+		}
+	}
+	return false
 }
